@@ -56,6 +56,17 @@ func init() {
 	probes["O53"] = probeO53
 	probes["O54"] = probeO54
 	probes["O55"] = probeO55
+	probes["O65"] = func() (bool, string) {
+		return guard(func() (bool, string) {
+			type in struct{ X, Y int }
+			c, _ := ucfg.NewFrom(map[string]interface{}{"s": []interface{}{map[string]interface{}{"x": 9}}})
+			t := struct {
+				S []in `config:"s,replace"`
+			}{S: []in{{1, 2}, {3, 4}}}
+			err := c.Unpack(&t)
+			return err != nil || len(t.S) != 1 || t.S[0].Y != 0, fmt.Sprint(err, " ", t.S)
+		})
+	}
 	probes["O63"] = func() (bool, string) {
 		return guard(func() (bool, string) {
 			a, b := underOrders(func() string {
